@@ -97,4 +97,8 @@ func init() {
 	add("C14", "R14m: no list AddProof returns receives a concatenation (append(a, b...), AppendMany, copy, slices.Concat, in the function or in a helper, by summaries) of a list derived from one proof only with a list derived from the other only; two proofs that share a target would otherwise return it twice.", "")
 	add("C13", "R13o: every store of the receiver that (*MapPollard).Read refills with Put is emptied first (a dominating call whose closure deletes from that store, or a new store assigned to the field) - the stream describes the whole forest (found D25).", "")
 	add("C16", "R16f: a value is compared with the result of maxPositionAtRow / maxPossiblePosAtRow (the biggest position of a row, inclusive) only with <= / > (package-wide: remap's move loop, the core's row cursor, pruneEdges, ProofPositions, getNewPositions).", "")
+	add("C14", "R14n: in GetProofSubset a call that reaches calculateHashes dominates every success return.", "")
+	add("C15", "R15m: a method that stores a fresh make into a [][]T field of its receiver and appends to rows of that field has the store dominate every such append (genTTLs / ttls).", "")
+	add("C03", "R03f counts a list as checked only if the compared element is not read under the counter of a loop whose exit test is the length of another list.", "")
+	add("C16", "R16g: a value that is a position by role (handed to a package function's position parameter in the same function, or yielded by a leaf-index iteration) is compared with 1<<rows only strictly (package-wide; no instance on the reviewed tree, kept alive by its controls).", "")
 }
